@@ -50,7 +50,11 @@ def gen_script(rng, tier):
             if rng.random() < 0.6:
                 order.append('D')
         return {'kind': 'unwrap', 'chain': chain, 'pre': pre, 'order': order}
-    fn = ['ret', rng.randrange(0, 50)] if rng.random() < 0.6 else ['raise', rng.randrange(1, 50)]
+    r = rng.random()
+    # 'raisebase': the continuation raises an exception that does not derive from Exception (as gevent.Timeout
+    # and GreenletExit do); "captures its result or exception" makes no difference, so the model is told 'raise'
+    fn = ['ret', rng.randrange(0, 50)] if r < 0.6 else ['raise', rng.randrange(1, 50)] if r < 0.85 else \
+        ['raisebase', rng.randrange(1, 50)]
     if kind == 'cw':
         return {'kind': 'cw', 'src': ['ok', rng.randrange(0, 50)] if rng.random() < 0.5 else ['err', 7],
                 'fn': fn, 'on_hub': rng.random() < 0.5, 'pre': rng.random() < 0.3,
@@ -110,6 +114,13 @@ class E(Exception):
         self.code = code
 
 
+class EB(BaseException):
+    """an exception outside the Exception hierarchy, like gevent.Timeout"""
+    def __init__(self, code):
+        BaseException.__init__(self, 'EB%d' % code)
+        self.code = code
+
+
 def run_script(script):
     import rt
     from scales.asynchronous import AsyncResult
@@ -124,7 +135,7 @@ def run_script(script):
         try:
             v = ar.get(block=False)
         except BaseException as ex:
-            return ['err', ex.code if isinstance(ex, E) else 999999]
+            return ['err', ex.code if isinstance(ex, (E, EB)) else 999999]
         if isinstance(v, list):
             return ['vals', [x if isinstance(x, int) else None for x in v]]
         if isinstance(v, int) and not isinstance(v, bool):
@@ -230,16 +241,19 @@ def run_script(script):
             calls['n'] += 1
             if fn[0] == 'ret':
                 return fn[1]
+            if fn[0] == 'raisebase':
+                tags.add('fn-raise-baseexception')
+                raise EB(fn[1])
             raise E(fn[1])
         if script['pre']:
             complete(src, script['src'])
             tags.add('pre')
         if kind == 'cw':
             out = src.ContinueWith(f, on_hub=script.get('on_hub', True))
-            cfg = vfmt(['cw', tuple(fn)])[1:-1]
+            cfg = vfmt(['cw', ('raise', fn[1]) if fn[0] == 'raisebase' else tuple(fn)])[1:-1]
         else:
             out = src.Map(f)
-            cfg = vfmt(['map', tuple(script['src']), tuple(fn)])[1:-1]
+            cfg = vfmt(['map', tuple(script['src']), ('raise', fn[1]) if fn[0] == 'raisebase' else tuple(fn)])[1:-1]
         steps.append(['look', vfmt([res_of(out), calls['n']])])
         if script['deliver']:
             if not script['pre']:
@@ -250,9 +264,11 @@ def run_script(script):
             rt.drain()
             steps.append(['deliver 0', vfmt([res_of(out), calls['n']])])
         tags.add(kind)
-        tags.add('fn-' + fn[0])
+        tags.add('fn-' + ('raise' if fn[0] == 'raisebase' else fn[0]))
         tags.add('src-' + script['src'][0])
-    errs = rt.take_errors()
+    # an exception of the script itself that escaped into the hub shows in the result observations (judged by the
+    # spec); anything else the hub reports is foreign and ends the case as a divergence
+    errs = [e for e in rt.take_errors() if e[0] not in ('E', 'EB')]
     if errs:
         tags.add('hub-error')
         steps.append(['look', vfmt(['raised', errs[0][0]])])
